@@ -116,3 +116,28 @@ func zzH_c18_sm2_cipherunmarshal() {
 	}
 	vReach("end")
 }
+
+// H18-sm2-ciphermarshal: CipherMarshal, which takes a raw ciphertext apart to re-encode it,
+// returns an encoding or an error for a buffer of any length - in particular one too short to
+// hold the format byte, C1 and C3 - and never panics.
+//
+//verif:property C18
+//verif:expect-reach end short ok
+//verif:bound raw ciphertexts of 0, 1, 4, 64, 96, 97 and 99 symbolic bytes; encoding replaced by a value store (the real DER encoder runs natively)
+//verif:outside DER encoding itself (encoding/asn1)
+//verif:stub-symbolic encoding/asn1.Marshal zzStubAsn1Marshal14
+//verif:native-smoke
+//verif:unwind 140
+func zzH_c18_sm2_ciphermarshal() {
+	L := []int{0, 1, 4, 64, 96, 97, 99}[vChoice("len", 7)]
+	raw := vBytes("raw", L, L)
+	out, err := CipherMarshal(raw)
+	if L < 97 {
+		vReach("short")
+		vAssert("too-short-for-c1-and-c3-is-an-error", err != nil && out == nil)
+	} else if err == nil {
+		vReach("ok")
+		vAssert("encoding-returned", len(out) > 0)
+	}
+	vReach("end")
+}
